@@ -130,7 +130,38 @@ def fmt_ip(v):
     return "%d.%d.%d.%d" % ((v >> 24) & 255, (v >> 16) & 255, (v >> 8) & 255, v & 255)
 
 
+# obligations of one property that also decide part of another: (source property, obligation-name prefix, claim filter or None)
+INCLUDE = {
+    # "TTLs only ever reduced by the time the reply spent in the cache" + "parse / re-serialise with name compression" (C03's anchors)
+    "C03": [("C06", "c06_cache_lookup", None), ("C14", "c14_roundtrip", None)],
+    # "every response parses as a DNS message": the encoder's output is accepted by the decoder and by the reference decoder
+    "C04": [("C14", "c14_roundtrip", ("encoding then decoding never panics", "the decoder accepts what the encoder produced", "independent RFC 1035 decoder"))],
+}
+
+
 def run_property(pid, tier, seed, logdir):
+    obligations = _run_property(pid, tier, seed, logdir)
+    for src, prefix, only in INCLUDE.get(pid, []):
+        for o in _run_property(src, tier, seed, logdir):
+            if not o["name"].startswith(prefix):
+                continue
+            o = dict(o)
+            o["name"] = pid.lower() + o["name"][len(src):]
+            o["shared_with"] = src
+            failed = []
+            for f in o.get("failed", []):
+                if only is None or f["description"].startswith(only):
+                    f = dict(f)
+                    f["check"] = o["name"]
+                    failed.append(f)
+            o["failed"] = failed
+            if o["verdict"] == "fail" and not failed:
+                o["verdict"] = "pass"
+            obligations.append(o)
+    return obligations
+
+
+def _run_property(pid, tier, seed, logdir):
     if pid not in MIR_PROPS:
         return []
     from mirsym import props_pool
@@ -216,7 +247,7 @@ def run_property(pid, tier, seed, logdir):
                                 reason=f"outside the encoder's subset: {e}", queries=0, solver_time_s=0, failed=[])
             jobs.append(("c11_policy_" + name, job))
         obligations.extend(run_jobs(jobs))
-        return obligations
+        # falls through to the handler obligations below (order in which handle_discover / handle_request apply the two policy lists)
     if pid in ("C04", "C14", "C05"):
         from mirsym import props_dns, enums as _en
         structs = _en.scan_structs(REPO)
@@ -313,6 +344,9 @@ def run_property(pid, tier, seed, logdir):
                     (L(("a", 1)), [(0, L(("a", 1)), ("rp", L(("x", 1), ("a", 1)), L(("y", 1), ("x", 1), ("a", 1)))), (0, L(("y", 1), ("x", 1), ("a", 1)), ("ptr", L(("x", 1), ("a", 1))))], False, False),
                     (L(("a", 1)), [(0, L(("a", 1)), ("rt", L(("h", 1), ("z", 1)))), (2, L(("h", 1), ("z", 1)), 4)], True, True),
                 ]
+            # a chain of names each extending the previous one by a label: the encoder emits one pointer hop per level
+            chain = [tuple(("=%s" % chr(ord("a") + k), 1) for k in range(d, -1, -1)) for d in range(13)]
+            layouts.append((chain[0], [(0, chain[d], 1) for d in range(1, 13)], False, False))
             # names first written just below / exactly at / just above offset 0x4000 (= 30 + filler length) and used again
             for fill in ((16352, 16353, 16354) if tier == "quick" else range(16348, 16359)):
                 if fill != 16360:
@@ -374,7 +408,7 @@ def run_property(pid, tier, seed, logdir):
                 obligations.append(dict(name=name, engine="mirsym", functions=[], bounds=bounds, oracle=oracle, stubs=lift_stub, tier=tier,
                                         verdict="inconclusive", reason=f"outside the encoder's subset: {e}", queries=0, solver_time_s=0, failed=[]))
         return obligations
-    if pid in POOL_PROPS:
+    if pid in POOL_PROPS or pid == "C11":
         from mirsym import sqlmodel
         try:
             ddl, keys = sqlmodel.extract_schema(prog.text)
@@ -457,7 +491,7 @@ def run_property(pid, tier, seed, logdir):
             return dict(name=name, engine="mirsym", functions=[], bounds="", oracle="", stubs=common_stubs, tier=tier, verdict="inconclusive",
                         reason=f"outside the encoder's subset: {e}", queries=ex.queries, solver_time_s=round(ex.solver_time, 2), failed=[])
     jobs = []
-    for step in po.shapes():
+    for step in (po.shapes() if pid != "C11" else []):
         name = f"{pid.lower()}_step_rows{step.n_rows - 1}_pool{step.pool_size}_{'req' if step.with_request else 'noreq'}"
         jobs.append((name, (lambda step=step, name=name: pool_job(step, name))))
 
@@ -467,6 +501,7 @@ def run_property(pid, tier, seed, logdir):
         "C10": [("request", None), ("discover", None), ("request", 51), ("discover", 51)],
         "C01": [("request", None), ("discover", None)],
         "C09": [("request", None), ("discover", None)],
+        "C11": [("request", None), ("discover", None)],
     }
     CLAIM_FILTER = {
         "C13": ("only DISCOVER", "a REQUEST naming", "a message that is not answered", "reply echoes", "the lease store changes only", "reply message type",
@@ -474,6 +509,7 @@ def run_property(pid, tier, seed, logdir):
         "C10": ("every OFFER and ACK", "advertised lease time"),
         "C01": ("the lease store changes only", "pool is asked on behalf"),
         "C09": ("address named to the pool", "a named address is handed"),
+        "C11": ("top-level defaults (the generated base policy) are applied first",),
     }
 
     def handler_job(kind, pset, name):
